@@ -228,7 +228,7 @@ class Model:
         self.fs, self.request = build(threshold, cooldown)
         # reference: consecutive gateway failures since the last gateway success
         self.hi = 0            # never reset by a cool-down
-        self.lo = 0            # reset when a cool-down ends / a bypassed call happens
+        self.lo = 0            # reset when a cool-down ends
         self.last_fail = None
         self.ever_gateway = 0
 
@@ -305,7 +305,8 @@ class Model:
                     return f"APP-ERROR-SWALLOWED {desc}: the provider call's own exception was not propagated"
             elif raised is not None:
                 return f"UNEXPECTED-ERROR {desc}: {raised!r}"
-            self.lo = 0
+            # (a by-passed call does not shorten the cool-down: lo restarts only when the
+            # cool-down has ended, above)
         return ""
 
     def key(self):
